@@ -20,13 +20,26 @@
 (*                    where the reader now is                                              *)
 (*   KeepFoundBlock   Seek puts the block taken from `working` into the cache before it   *)
 (*                    finds that it is the wanted one and makes it the current block      *)
+(*   EarlyReturnOnForeign  cacheSwap returns as soon as the cache hands it a block of      *)
+(*                    another Reader (ErrContaminatedCache), without offering the current  *)
+(*                    block to the cache; repaired (d7bbfb4): such a block is a miss       *)
+(* Environment switches:                                                                  *)
+(*   KeepOnGet        the cache's Get leaves a used block in the cache (cache.FIFO);       *)
+(*                    its Put answers (nil, false) for a block it is still holding         *)
+(*   Foreign          members for which the cache arrives holding a block of another       *)
+(*                    Reader of the same stream (a shared or previously used cache)        *)
+(* A block object carries `used` (bytes were read from it): set when the caller reads,     *)
+(* reset only when the object is first made or taken over from another owner - the code    *)
+(* does not reset it when it recycles one of its own blocks.                               *)
 EXTENDS Integers, Sequences, FiniteSets
 CONSTANTS N,            \* members 1..N
           RD,           \* decompressors (1 = synchronous reader)
           CAP,          \* cache capacity (0 = no cache)
           MaxOps,       \* API operations explored per behaviour
           FaultAt,      \* member whose read fails with an I/O error (0 = none)
-          KeepStaleOnFail, PanicOnMiss, BareCtlSend, KeepFoundBlock, SilentSeekHit
+          KeepStaleOnFail, PanicOnMiss, BareCtlSend, KeepFoundBlock, SilentSeekHit,
+          EarlyReturnOnForeign, KeepOnGet, Foreign
+ASSUME Foreign \subseteq 1..N /\ Cardinality(Foreign) <= CAP
 
 Dec == 1..RD
 NB == RD + CAP + 3                      \* block objects that may ever be allocated
@@ -51,17 +64,19 @@ vars == <<blk, nalloc, dblk, derr, dwg, head, filepos, waiting, working, control
 
 NextBaseOf(b) == IF b = NoBlk \/ blk[b].hdr = 0 THEN -1 ELSE blk[b].hdr + 1
 HasData(b) == b # NoBlk /\ blk[b].data # 0
+\* cache entries <<key, block>>; block -k stands for the other Reader's block of member k
 CacheKeys == {e[1] : e \in cache}
 CachedFor(k) == {e[2] : e \in {x \in cache : x[1] = k}}
 
 Init ==
-  /\ blk = [b \in 1..NB |-> IF b = 1 THEN [base |-> 1, hdr |-> 1, data |-> 1] ELSE [base |-> 0, hdr |-> 0, data |-> 0]]
+  /\ blk = [b \in 1..NB |-> IF b = 1 THEN [base |-> 1, hdr |-> 1, data |-> 1, used |-> FALSE]
+                                       ELSE [base |-> 0, hdr |-> 0, data |-> 0, used |-> FALSE]]
   /\ nalloc = 1
   /\ dblk = [d \in Dec |-> NoBlk] /\ derr = [d \in Dec |-> "nil"] /\ dwg = [d \in Dec |-> 0]
   /\ head = TRUE /\ filepos = 2
   /\ waiting = (IF RD > 1 THEN [i \in 1..RD |-> i] ELSE <<>>)
   /\ working = <<>> /\ control = <<>> /\ closedCh = FALSE
-  /\ cache = {}
+  /\ cache = {<<k, -k>> : k \in Foreign}
   /\ cpc = "idle" /\ cur = 1 /\ cerr = "nil" /\ want = 1 /\ cdec = 0 /\ cbase = 0 /\ coff = 0 /\ ci = 0 /\ nops = 0 /\ cfound = FALSE
   /\ apc = (IF RD > 1 THEN "take" ELSE "none") /\ adec = 0 /\ anext = 2 /\ aoff = 0
   /\ inflating = {}
@@ -70,6 +85,7 @@ Init ==
 \* Put(b): <<handed back, retained>> and the new cache
 PutOutcomes(b) ==
   IF CAP = 0 \/ b = NoBlk \/ ~HasData(b) THEN {<<b, FALSE, cache>>}
+  ELSE IF <<blk[b].base, b>> \in cache THEN {<<NoBlk, FALSE, cache>>}     \* the cache still holds b: not available for reuse
   ELSE IF blk[b].base \in CacheKeys THEN {<<b, FALSE, cache>>}
   ELSE IF Cardinality(cache) < CAP THEN {<<NoBlk, TRUE, cache \cup {<<blk[b].base, b>>}>>}
   ELSE {<<b, FALSE, cache>>} \cup {<<e[2], TRUE, (cache \ {e}) \cup {<<blk[b].base, b>>}>> : e \in cache}
@@ -78,7 +94,8 @@ PutOutcomes(b) ==
 \* step 1: `for { exists, next := cacheHasBlockFor(off); if !exists { break }; off = next }`
 \* one Peek per step; returns the new offset or "done"
 PeekStep(off) == IF CAP > 0 /\ off \in CacheKeys
-                 THEN LET b == CHOOSE b \in CachedFor(off) : TRUE IN [done |-> FALSE, off |-> NextBaseOf(b)]
+                 THEN LET b == CHOOSE b \in CachedFor(off) : TRUE
+                      IN [done |-> FALSE, off |-> IF b < 0 THEN 1 - b ELSE NextBaseOf(b)]
                  ELSE [done |-> TRUE, off |-> off]
 \* step 2 (holding the head): lazyBlock, seek if needed, setBase, readMember; the effect on
 \* the decompressor d reading member off with block b (NoBlk = allocate)
@@ -94,13 +111,14 @@ ReadMember(d, off) ==
      /\ nalloc' = IF dblk[d] = NoBlk THEN nalloc + 1 ELSE nalloc
      /\ dblk' = [dblk EXCEPT ![d] = b]
      /\ IF ok
-        THEN /\ blk' = [blk EXCEPT ![b] = [base |-> off, hdr |-> off, data |-> 0]]
+        THEN /\ blk' = [blk EXCEPT ![b] = [base |-> off, hdr |-> off, data |-> 0,
+                                              used |-> IF dblk[d] = NoBlk THEN FALSE ELSE blk[b].used]]
              /\ filepos' = off + 1
              /\ derr' = [derr EXCEPT ![d] = "nil"]
              /\ dwg' = [dwg EXCEPT ![d] = 1]
              /\ inflating' = inflating \cup {d}
         ELSE /\ blk' = [blk EXCEPT ![b] = IF KeepStaleOnFail THEN [@ EXCEPT !.base = off]
-                                          ELSE [base |-> off, hdr |-> 0, data |-> 0]]
+                                          ELSE [base |-> off, hdr |-> 0, data |-> 0, used |-> FALSE]]
              /\ filepos' = IF off > N THEN EOFm ELSE off
              /\ derr' = [derr EXCEPT ![d] = e]
              /\ dwg' = [dwg EXCEPT ![d] = 0]
@@ -150,7 +168,14 @@ chVars == <<waiting, working, control, closedCh>>
 StartNext == /\ cpc = "idle" /\ nops < MaxOps /\ cerr = "nil" /\ cur # NoBlk
              /\ nops' = nops + 1 /\ want' = want + 1
              /\ cbase' = NextBaseOf(cur) /\ cpc' = "n.get"
-             /\ UNCHANGED <<cur, cerr, cdec, coff, ci, cfound>> /\ UNCHANGED sVars /\ UNCHANGED chVars /\ UNCHANGED cache /\ UNCHANGED aVars
+             /\ blk' = [blk EXCEPT ![cur].used = TRUE]          \* the caller has read the block to its end
+             /\ UNCHANGED <<cur, cerr, cdec, coff, ci, cfound>> /\ UNCHANGED <<nalloc, dblk, derr, dwg, head, filepos, inflating>>
+             /\ UNCHANGED chVars /\ UNCHANGED cache /\ UNCHANGED aVars
+\* API: a Read that stays inside the current block (it only matters to a cache that treats used blocks differently)
+StartTouch == /\ KeepOnGet /\ cpc = "idle" /\ nops < MaxOps /\ cerr = "nil" /\ cur # NoBlk /\ ~blk[cur].used
+              /\ nops' = nops + 1 /\ blk' = [blk EXCEPT ![cur].used = TRUE]
+              /\ UNCHANGED <<cpc, cur, cerr, want, cdec, cbase, coff, ci, cfound>> /\ UNCHANGED <<nalloc, dblk, derr, dwg, head, filepos, inflating>>
+              /\ UNCHANGED chVars /\ UNCHANGED cache /\ UNCHANGED aVars
 \* API: Seek(m, 0)
 StartSeek(m) == /\ cpc = "idle" /\ nops < MaxOps
                 /\ nops' = nops + 1 /\ want' = m /\ cbase' = m
@@ -160,13 +185,18 @@ StartSeek(m) == /\ cpc = "idle" /\ nops < MaxOps
                 /\ UNCHANGED <<cur, cerr, cdec, coff, ci, cfound>> /\ UNCHANGED sVars /\ UNCHANGED chVars /\ UNCHANGED cache /\ UNCHANGED aVars
 
 \* cacheSwap(base): Get, then Put of the current block (two separate atomic cache operations)
-SwapGet(pcGet, pcHit, pcMiss) ==
+SwapGet(pcGet, pcHit, pcMiss, pcSkip) ==
     /\ cpc = pcGet
     /\ IF CAP > 0 /\ cbase \in CacheKeys
        THEN LET b == CHOOSE b \in CachedFor(cbase) : TRUE
-            IN /\ cache' = {e \in cache : e[1] # cbase}
-               /\ cdec' = b            \* remembered in cdec until the Put is done
-               /\ cpc' = pcHit
+                stays == KeepOnGet /\ (IF b < 0 THEN TRUE ELSE blk[b].used)
+            IN /\ cache' = IF stays THEN cache ELSE {e \in cache : e[1] # cbase}
+               /\ IF b < 0
+                  THEN \* a block of another Reader: ErrContaminatedCache
+                       /\ cpc' = IF EarlyReturnOnForeign THEN pcSkip ELSE pcMiss
+                       /\ UNCHANGED cdec
+                  ELSE /\ cdec' = b            \* remembered in cdec until the Put is done
+                       /\ cpc' = pcHit
        ELSE /\ cpc' = pcMiss /\ UNCHANGED <<cache, cdec>>
     /\ UNCHANGED <<cur, cerr, want, cbase, coff, ci, nops, cfound>> /\ UNCHANGED sVars /\ UNCHANGED chVars /\ UNCHANGED aVars
 \* hit: `bg.cachePut(bg.current); bg.current = blk`
@@ -184,7 +214,7 @@ SwapPutMiss(pcMiss, pcNext) ==
     /\ UNCHANGED <<cerr, want, cdec, cbase, coff, ci, nops, cfound>> /\ UNCHANGED sVars /\ UNCHANGED chVars /\ UNCHANGED aVars
 
 \* --- nextBlock
-NGet == SwapGet("n.get", "n.hit", "n.miss")
+NGet == SwapGet("n.get", "n.hit", "n.miss", IF RD = 1 THEN "y.use" ELSE "n.recv")
 NHit == SwapPutHit("n.hit", "idle")
 NMiss == SwapPutMiss("n.miss", IF RD = 1 THEN "y.use" ELSE "n.recv")
 \* rd > 1: `for i := 0; i < cap(working); i++ { dec := <-working; cur, err = dec.wait(); waiting <- dec; ... }`
@@ -280,7 +310,7 @@ SFound == /\ cpc = "s.found"
           /\ UNCHANGED <<working, closedCh, cache, cur, cerr, want, cbase, coff, ci, nops, cfound>> /\ UNCHANGED sVars /\ UNCHANGED aVars
 
 \* --- Seek
-SGet == SwapGet("s.get", "s.hit", "s.miss")
+SGet == SwapGet("s.get", "s.hit", "s.miss", IF RD = 1 THEN "y.use" ELSE "s.select")
 SHit == SwapPutHit("s.hit", IF RD = 1 \/ SilentSeekHit THEN "s.inblock" ELSE "s.hitctl")
 \* repaired: `select { case <-control: default: }; control <- current.NextBase()`
 SHitCtl == /\ cpc = "s.hitctl"
@@ -303,7 +333,7 @@ Terminated == cpc \in {"closed", "panic"} /\ UNCHANGED vars
 
 Next == \/ ATake \/ ACtl \/ APeek \/ ARead \/ ASend
         \/ (\E d \in Dec : Inflate(d))
-        \/ StartNext \/ (\E m \in 1..N : StartSeek(m))
+        \/ StartNext \/ StartTouch \/ (\E m \in 1..N : StartSeek(m))
         \/ NGet \/ NHit \/ NMiss \/ NRecv \/ NWait
         \/ YUse \/ YPeek \/ YRead \/ YWait \/ YDrain
         \/ SelWaiting("s") \/ SelWorking("s") \/ SelWWait("s") \/ SFound
@@ -320,7 +350,7 @@ DataIdentity == (cpc = "idle" /\ cerr = "nil") =>
 \* no clean end before the true end; I/O errors only where injected
 ErrorsTrue == (cpc = "idle" /\ cerr = "EOF" => want = EOFm) /\ (cpc = "idle" /\ cerr = "other" => FaultAt # 0)
 \* the cache never maps a base to a block that holds another member
-NoStaleMapping == \A e \in cache : blk[e[2]].base = e[1] /\ blk[e[2]].data = e[1] /\ blk[e[2]].hdr = e[1]
+NoStaleMapping == \A e \in cache : e[2] > 0 => blk[e[2]].base = e[1] /\ blk[e[2]].data = e[1] /\ blk[e[2]].hdr = e[1]
 CacheBounded == Cardinality(cache) <= CAP
 Capacities == Len(waiting) <= RD /\ Len(working) <= RD /\ Len(control) <= 1
 \* after Close nothing of the library is running
